@@ -82,8 +82,9 @@ Put(f, n, v) == [m \in DOMAIN f \cup {n} |-> IF m = n THEN v ELSE f[m]]
 DefineIn(st, s, n, v) == [st EXCEPT !.sc[s].vars = Put(@, n, v)]
 
 RECURSIVE Lookup(_, _, _), Nearest(_, _, _)
-Lookup(st, s, n) == IF s = 0 THEN (IF n \in st.ext THEN IntV(99) ELSE NoneV)     \* the host's external lookup: asked after the outermost table
+Lookup(st, s, n) == IF s = 0 THEN NoneV
                     ELSE IF n \in DOMAIN st.sc[s].vars THEN st.sc[s].vars[n]
+                    ELSE IF s = st.extsc /\ n \in st.ext THEN IntV(99)          \* the host's external lookup: asked after the table of the scope it sits on, before that scope's parent
                     ELSE Lookup(st, st.sc[s].par, n)
 Nearest(st, s, n) == IF s = 0 THEN 0
                      ELSE IF n \in DOMAIN st.sc[s].vars THEN s
@@ -639,7 +640,7 @@ Exec(n, s, st) ==
 \* hnl: []int64(nil)) -- to a script an empty map and an empty list, which grow by being stored back into the binding that holds them
 HostNames == {"p", "pv", "pn", "pa", "pp", "ch", "pe", "hnm", "hnl"}
 InitStateX(fuel, ext) ==
-  [ext |-> ext, sc |-> <<[par |-> 0, vars |-> [n \in HostNames |-> IF n = "hnm" THEN MapV(<<>>) ELSE IF n = "hnl" THEN ListV(<<>>) ELSE HostV(n)]]>>,
+  [ext |-> ext, extsc |-> 1, sc |-> <<[par |-> 0, vars |-> [n \in HostNames |-> IF n = "hnm" THEN MapV(<<>>) ELSE IF n = "hnl" THEN ListV(<<>>) ELSE HostV(n)]]>>,
    log |-> <<>>, fuel |-> fuel, fns |-> <<>>, ds |-> <<<<>>>>, open |-> FALSE]
 InitState(fuel) == InitStateX(fuel, {})
 
@@ -651,18 +652,25 @@ ProjV(v) == IF v.t \in {"list", "map"} THEN [t |-> v.t, i |-> 0, s |-> "", l |->
 
 \* ext: the names an external lookup installed by the host on the outermost scope resolves (each to the integer 99).  A name the script
 \* binds anywhere on the way out wins; only a name no enclosing scope binds reaches the lookup.
-RunX(prog, fuel, ext) ==
-  LET st0 == InitStateX(fuel, ext)
-      b == ExecList(prog, 1, 1, st0) IN
+\* inner: the lookup sits on a scope nested in the host's outermost one -- where the host has also bound the names it resolves, to 50 -- and
+\* the script runs in that nested scope (its bindings are the top-level bindings of the run)
+RunXI(prog, fuel, ext, inner) ==
+  LET base == InitStateX(fuel, ext)
+      st0 == IF ~inner THEN base
+             ELSE [base EXCEPT !.extsc = 2,
+                               !.sc = <<[par |-> 0, vars |-> [n \in HostNames \cup ext |-> IF n \in ext THEN IntV(50) ELSE @[1].vars[n]]], [par |-> 1, vars |-> EmptyVars]>>]
+      ts == IF inner THEN 2 ELSE 1
+      b == ExecList(prog, 1, ts, st0) IN
   IF b.o = "fuel" THEN [cls |-> "fuel", v |-> NilV, log |-> <<>>, top |-> <<>>, open |-> TRUE]
   ELSE LET dl == b.st.ds[1]
            d == RunDefers([b.st EXCEPT !.ds = <<>>], dl, Len(dl), b, NoneV) IN
        IF d.o = "fuel" THEN [cls |-> "fuel", v |-> NilV, log |-> <<>>, top |-> <<>>, open |-> TRUE]
-       ELSE LET names == DOMAIN d.st.sc[1].vars \ HostNames IN
+       ELSE LET names == DOMAIN d.st.sc[ts].vars \ HostNames IN
             [cls |-> CASE d.o \in {"norm", "ret"} -> "ok" [] d.o = "thr" -> "err" [] OTHER -> "strayloopctl",
              v |-> IF d.o = "ret" THEN ProjV(d.v) ELSE IF d.o = "thr" THEN d.v ELSE OpenV,
              log |-> [j \in 1..Len(d.st.log) |-> ProjV(d.st.log[j])],
-             top |-> [n \in names |-> ProjV(d.st.sc[1].vars[n])],
+             top |-> [n \in names |-> ProjV(d.st.sc[ts].vars[n])],
              open |-> d.st.open]
+RunX(prog, fuel, ext) == RunXI(prog, fuel, ext, FALSE)
 Run(prog, fuel) == RunX(prog, fuel, {})
 =============================================================================
